@@ -200,8 +200,19 @@ def entryOf (e : Event) : Option Entry :=
       else none
     | .generic => none
 
-/-- `cmChange` (ConfigMap `add`/`upd`; there is no `del`) -/
+/-- `cmChange` (ConfigMap `add`/`upd`; there is no `del`): a nil `.Data` is written as an empty
+map (`some 0`), because a nil `…New` means "unchanged" to `initCh` and the converters -/
 def applyCm (b : Batch) (e : Event) : Batch :=
+  if e.kind = .cm ∧ (e.typ = .create ∨ e.typ = .update) then
+    match cmSel e with
+    | some true => { b with gNew := some (e.data.getD 0) }
+    | some false => { b with tNew := some (e.data.getD 0) }
+    | none => b
+  else b
+
+/-- `cmChange` before the repair f69446d (kept as the historical witness): `.Data` was stored as
+it is, so an emptied ConfigMap (nil map) was announced as "unchanged" -/
+def applyCmOld (b : Batch) (e : Event) : Batch :=
   if e.kind = .cm ∧ (e.typ = .create ∨ e.typ = .update) then
     match cmSel e with
     | some true => { b with gNew := e.data }
@@ -320,10 +331,11 @@ def isFlip (e : Event) : Bool :=
 /-- data of the last ConfigMap event of the window that sets the global/TCP data -/
 def lastSet (g : Bool) (w : List Event) : Option Event := (w.filter (setsCm g)).getLast?
 
-/-- first violated clause for one window and the batch that closed it.  The two clauses the
-current code is known to violate (`checkKnown`) are evaluated after all others so that they do not
-mask anything; here a class transition may carry any description prefix and an emptied ConfigMap
-may be announced as nil. -/
+/-- first violated clause for one window and the batch that closed it.  Two specific clauses
+(`checkKnown`: the known finding about the description of a class transition, and the repaired
+emptied-ConfigMap defect, kept so that a regression is reported under its own key) are evaluated
+after all others so that they do not mask anything; here a class transition may carry any
+description prefix and an emptied ConfigMap may be announced as nil. -/
 def checkWindow (w : List Event) (b : Batch) : Option String :=
   let evs := w.filter (·.typ ≠ .generic)
   let cmOk (g : Bool) (new : Option Nat) : Bool :=
@@ -352,7 +364,7 @@ def checkWindow (w : List Event) (b : Batch) : Option String :=
   else if !cmOk true b.gNew || !cmOk false b.tNew then some "configmap-data-wrong"
   else none
 
-/-- the clauses the current code violates -/
+/-- the specific clauses: known finding (description) and repaired defect (emptied ConfigMap) -/
 def checkKnown (w : List Event) (b : Batch) : Option String :=
   let evs := w.filter (·.typ ≠ .generic)
   if evs.any (fun e => isFlip e && !(b.objects.contains (specDescr e))) then
